@@ -393,4 +393,761 @@ theorem substValue_noRef (fr : Frame) : ∀ v : Value, hasRef v = false → subs
   | .lit s :: r, h => by simp only [hasRef] at h; simp [substValue, substValue_noRef fr r h]
   | .ref n :: r, h => by simp [hasRef] at h
 
+
+/-! ### arguments -/
+
+theorem singleRef_some {v : Value} {n : String} (h : singleRef v = some n) : v = [.ref n] := by
+  match v with
+  | [] => simp [singleRef] at h
+  | [.ref m] => simp [singleRef] at h; subst h; rfl
+  | [.lit s] => simp [singleRef] at h
+  | .ref m :: t :: r => simp [singleRef] at h
+  | .lit s :: t :: r => simp [singleRef] at h
+
+theorem singleRef_noRef {v : Value} (h : hasRef v = false) : singleRef v = none := by
+  cases hs : singleRef v with
+  | none => rfl
+  | some n => rw [singleRef_some hs] at h; simp [hasRef] at h
+
+theorem substOnce_agree {Y1 Y2 : Scope} {N : List String}
+    (h : ∀ n ∈ N, lookup Y1 n = lookup Y2 n) :
+    ∀ v : Value, refsIn N v = true → substOnce Y1 v = substOnce Y2 v
+  | [], _ => rfl
+  | .lit s :: r, hr => by
+    simp only [refsIn] at hr
+    simp only [substOnce, substOnce_agree h r hr]
+  | .ref n :: r, hr => by
+    simp only [refsIn, Bool.and_eq_true, List.contains_iff_mem] at hr
+    simp only [substOnce, substOnce_agree h r hr.2, h n hr.1]
+
+theorem arithVal_ok {v : Value} {k : Int} {r : Value} (h : arithVal v k = .ok r) :
+    ∃ s, r = [.lit s] := by
+  unfold arithVal at h
+  split at h
+  · simp only at h
+    split at h <;> cases h <;> exact ⟨_, rfl⟩
+  · cases h
+
+theorem arithVal_of_num {v : Value} (k : Int) (h : (numOf v).isSome = true) :
+    ∃ r, arithVal v k = .ok r := by
+  unfold arithVal
+  cases hn : numOf v with
+  | none => simp [hn] at h
+  | some q =>
+    simp only
+    split <;> exact ⟨_, rfl⟩
+
+theorem substOnce_single (Y : Scope) (n : String) :
+    substOnce Y [.ref n] = (match lookup Y n with
+      | none => .error (.unknownVar n)
+      | some v => .ok v) := by
+  simp only [substOnce]
+  cases lookup Y n with
+  | none => rfl
+  | some v => simp [bind, Except.bind, pure, Except.pure]
+
+theorem evalArg_congr {Y1 Y2 : Scope} {N : List String} (h1 : LitScope Y1 = true)
+    (h2 : LitScope Y2 = true) (h : ∀ n ∈ N, lookup Y1 n = lookup Y2 n) :
+    ∀ a : Arg, closedArg N a = true → evalArg Y1 a = evalArg Y2 a
+  | .val v, hc => by
+    rw [evalArg_val, evalArg_val]
+    simp only [closedArg] at hc
+    cases hs : singleRef v with
+    | none => rfl
+    | some n =>
+      simp only [hs, List.contains_iff_mem] at hc
+      simp only [h n hc]
+  | .arith n k, hc => by
+    simp only [closedArg, List.contains_iff_mem] at hc
+    rw [evalArg_arith, evalArg_arith, expand_lit h1, expand_lit h2, substOnce_single,
+      substOnce_single, h n hc]
+
+theorem evalArg_subst {X1 X2 : Scope} {fr : Frame} (hs : Splits X1 fr X2)
+    (hf : LitFrame fr = true) (h1 : LitScope X1 = true) (h2 : LitScope X2 = true) :
+    ∀ a : Arg, inlineArgOK fr a = true → evalArg X1 a = evalArg X2 (substArg fr a)
+  | .val v, hc => by
+    simp only [substArg]
+    rw [evalArg_val]
+    simp only [inlineArgOK] at hc
+    cases hsr : singleRef v with
+    | some n =>
+      have := singleRef_some hsr
+      subst this
+      simp only [substValue, hs n]
+      cases hg : Frame.get fr n with
+      | some w =>
+        simp only [List.append_nil]
+        rw [evalArg_val, singleRef_noRef (LitFrame_get hf hg)]
+      | none =>
+        simp only
+        rw [evalArg_val]; rfl
+    | none =>
+      simp only [hsr, Bool.not_eq_true'] at hc
+      rw [substValue_noRef fr v hc, evalArg_val, hsr]
+  | .arith n k, hc => by
+    simp only [inlineArgOK] at hc
+    rw [evalArg_arith, expand_lit h1, substOnce_single, hs n]
+    simp only [substArg]
+    cases hg : Frame.get fr n with
+    | some w =>
+      simp only [hg] at hc
+      obtain ⟨r, hr⟩ := arithVal_of_num k hc
+      obtain ⟨s, rfl⟩ := arithVal_ok hr
+      simp only [hr]
+      rw [evalArg_val]
+      simp [liftV, bind, Except.bind, hr, singleRef]
+    | none =>
+      simp only
+      rw [evalArg_arith, expand_lit h2, substOnce_single]
+
+theorem evalArg_lit {Y : Scope} (hY : LitScope Y = true) :
+    ∀ (a : Arg) (w : Value), (∀ v, a = .val v → singleRef v = none → hasRef v = false) →
+      evalArg Y a = .ok w → hasRef w = false
+  | .val v, w, hv, h => by
+    rw [evalArg_val] at h
+    cases hs : singleRef v with
+    | some n =>
+      simp only [hs] at h
+      cases hl : lookup Y n with
+      | none => simp [hl] at h
+      | some u => simp only [hl] at h; cases h; exact LitScope_lookup hY hl
+    | none => simp only [hs] at h; cases h; exact hv v rfl hs
+  | .arith n k, w, _, h => by
+    rw [evalArg_arith] at h
+    cases he : liftV (expand Y 64 [.ref n]) with
+    | error e => simp [he, bind, Except.bind] at h
+    | ok u =>
+      simp only [he, bind, Except.bind] at h
+      obtain ⟨s, rfl⟩ := arithVal_ok h
+      rfl
+
+theorem closedArg_simple {N : List String} {a : Arg} (h : closedArg N a = true) :
+    ∀ v, a = .val v → singleRef v = none → hasRef v = false := by
+  intro v hv hs; subst hv; simpa [closedArg, hs] using h
+
+theorem inlineArgOK_simple {fr : Frame} {a : Arg} (h : inlineArgOK fr a = true) :
+    ∀ v, a = .val v → singleRef v = none → hasRef v = false := by
+  intro v hv hs; subst hv; simpa [inlineArgOK, hs] using h
+
+/-! ### `mapM` in `Except` -/
+
+theorem mapM_congr' {α β ε : Type} {f g : α → Except ε β} :
+    ∀ l : List α, (∀ a ∈ l, f a = g a) → l.mapM f = l.mapM g
+  | [], _ => rfl
+  | a :: l, h => by
+    simp only [List.mapM_cons, h a List.mem_cons_self,
+      mapM_congr' l (fun b hb => h b (List.mem_cons_of_mem _ hb))]
+
+theorem mapM_ok_all {α β ε : Type} {f : α → Except ε β} {P : β → Prop} :
+    ∀ (l : List α) (vs : List β), l.mapM f = .ok vs → (∀ a ∈ l, ∀ v, f a = .ok v → P v) →
+      ∀ v ∈ vs, P v
+  | [], vs, h, _ => by
+    simp only [List.mapM_nil, pure, Except.pure] at h; cases h; simp
+  | a :: l, vs, h, hp => by
+    simp only [List.mapM_cons] at h
+    cases ha : f a with
+    | error e => simp [ha, bind, Except.bind] at h
+    | ok b =>
+      cases hl : l.mapM f with
+      | error e => simp [ha, hl, bind, Except.bind] at h
+      | ok bs =>
+        simp only [ha, hl, bind, Except.bind, pure, Except.pure] at h
+        cases h
+        intro v hv
+        rcases List.mem_cons.mp hv with rfl | hv
+        · exact hp a List.mem_cons_self _ ha
+        · exact mapM_ok_all l bs hl (fun c hc => hp c (List.mem_cons_of_mem _ hc)) v hv
+
+theorem staticArgs_mapM (Y : Scope) : ∀ (as : List Arg) (vs : List Value),
+    staticArgs as = some vs → as.mapM (evalArg Y) = .ok vs
+  | [], vs, h => by simp only [staticArgs] at h; cases h; rfl
+  | .val v :: r, vs, h => by
+    simp only [staticArgs] at h
+    split at h
+    · cases h
+    · rename_i hv
+      simp only [Option.map_eq_some_iff] at h
+      obtain ⟨ws, hws, rfl⟩ := h
+      simp only [List.mapM_cons, staticArgs_mapM Y r ws hws, evalArg_val,
+        singleRef_noRef (by simpa using hv)]
+      rfl
+  | .arith n k :: r, vs, h => by simp [staticArgs] at h
+
+
+/-! ### guards and applicability -/
+
+theorem condHolds_congr (frd : Frame) {Y1 Y2 : Scope} (c : GCond)
+    (h : lookup Y1 c.param = lookup Y2 c.param) : condHolds frd Y1 c = condHolds frd Y2 c := by
+  unfold condHolds; rw [h]
+
+theorem condHolds_decided (frd : Frame) (Y1 Y2 : Scope) (c : GCond)
+    (h : ((Frame.get frd c.param).bind numOf).isSome = true) :
+    condHolds frd Y1 c = condHolds frd Y2 c := by
+  unfold condHolds
+  cases hq : (Frame.get frd c.param).bind numOf with
+  | none => simp [hq] at h
+  | some q => rfl
+
+theorem all_congr' {α : Type} {l : List α} {f g : α → Bool} (h : ∀ a ∈ l, f a = g a) :
+    l.all f = l.all g := by
+  induction l with
+  | nil => rfl
+  | cons a l ih =>
+    simp only [List.all_cons, h a List.mem_cons_self,
+      ih (fun b hb => h b (List.mem_cons_of_mem _ hb))]
+
+theorem any_congr' {α : Type} {l : List α} {f g : α → Bool} (h : ∀ a ∈ l, f a = g a) :
+    l.any f = l.any g := by
+  induction l with
+  | nil => rfl
+  | cons a l ih =>
+    simp only [List.any_cons, h a List.mem_cons_self,
+      ih (fun b hb => h b (List.mem_cons_of_mem _ hb))]
+
+theorem guardHolds_congr (frd : Frame) (Y1 Y2 : Scope) (g : List (List GCond))
+    (h : ∀ ch ∈ g, ∀ c ∈ ch, condHolds frd Y1 c = condHolds frd Y2 c) :
+    guardHolds frd Y1 g = guardHolds frd Y2 g := by
+  unfold guardHolds
+  congr 1
+  exact any_congr' (fun ch hch => all_congr' (h ch hch))
+
+theorem mem_guardParams {d : MixinDef} {ch : List GCond} {c : GCond} (h1 : ch ∈ d.guard)
+    (h2 : c ∈ ch) : c.param ∈ guardParams d := by
+  unfold guardParams
+  exact List.mem_map.mpr ⟨c, List.mem_flatten.mpr ⟨ch, h1, h2⟩, rfl⟩
+
+theorem tryMixin_some {Y : Scope} {d : MixinDef} {args : List Value} {frd : Frame}
+    (h : tryMixin Y d args = some frd) :
+    ∃ f0, bindParams d.params args = some f0 ∧
+      frd = f0 ++ [("arguments", intersperseSp (if args.isEmpty then f0.map (·.2) else args))] := by
+  unfold tryMixin at h
+  cases hb : bindParams d.params args with
+  | none => simp [hb] at h
+  | some f0 =>
+    simp only [hb] at h
+    refine ⟨f0, rfl, ?_⟩
+    by_cases hg : (guardHolds
+        (f0 ++ [("arguments", intersperseSp (if args.isEmpty then f0.map (·.2) else args))]) Y d.guard
+          && !d.body.isEmpty) = true
+    · rw [if_pos hg] at h; cases h; rfl
+    · rw [if_neg hg] at h; cases h
+
+theorem tryMixin_congr {Y1 Y2 : Scope} {d : MixinDef} {args : List Value}
+    (h : ∀ p ∈ guardParams d, lookup Y1 p = lookup Y2 p ∨ guardDecided d args p = true) :
+    tryMixin Y1 d args = tryMixin Y2 d args := by
+  unfold tryMixin
+  cases hb : bindParams d.params args with
+  | none => rfl
+  | some f0 =>
+    simp only
+    rw [guardHolds_congr _ Y1 Y2 d.guard]
+    intro ch hch c hc
+    rcases h c.param (mem_guardParams hch hc) with h | h
+    · exact condHolds_congr _ c h
+    · apply condHolds_decided
+      simp only [guardDecided, hb] at h
+      rw [Frame.get_append]
+      cases hg : Frame.get f0 c.param with
+      | none => simp [hg] at h
+      | some v => simpa [hg] using h
+
+theorem firstApplicable_congr {Y1 Y2 : Scope} {args : List Value} :
+    ∀ cands : List MixinDef, (∀ d ∈ cands, tryMixin Y1 d args = tryMixin Y2 d args) →
+      firstApplicable Y1 args cands = firstApplicable Y2 args cands
+  | [], _ => rfl
+  | d :: ds, h => by
+    simp only [firstApplicable, h d List.mem_cons_self,
+      firstApplicable_congr ds (fun e he => h e (List.mem_cons_of_mem _ he))]
+
+theorem firstApplicable_some {Y : Scope} {args : List Value} {m : MixinDef} {frd : Frame} :
+    ∀ cands : List MixinDef, firstApplicable Y args cands = some (m, frd) →
+      m ∈ cands ∧ tryMixin Y m args = some frd
+  | [], h => by simp [firstApplicable] at h
+  | d :: ds, h => by
+    simp only [firstApplicable] at h
+    cases ht : tryMixin Y d args with
+    | some f =>
+      simp only [ht] at h
+      cases h
+      exact ⟨List.mem_cons_self, ht⟩
+    | none =>
+      simp only [ht] at h
+      obtain ⟨h1, h2⟩ := firstApplicable_some ds h
+      exact ⟨List.mem_cons_of_mem _ h1, h2⟩
+
+theorem mem_candidates {tbl : Table} {name : String} {m : MixinDef}
+    (h : m ∈ tbl.candidates name) : (name, m) ∈ tbl.mixins := by
+  unfold Table.candidates at h
+  obtain ⟨⟨k, d⟩, hk, rfl⟩ := List.mem_map.mp h
+  obtain ⟨hm, he⟩ := List.mem_filter.mp hk
+  have : k = name := by simpa using he
+  subst this
+  exact hm
+
+theorem block_mem {tbl : Table} {name : String} {body : List Item}
+    (h : tbl.block name = some body) : ∃ k, (k, body) ∈ tbl.blocks := by
+  unfold Table.block at h
+  simp only [Option.map_eq_some_iff] at h
+  obtain ⟨⟨k, b⟩, hk, rfl⟩ := h
+  exact ⟨k, List.mem_of_find?_eq_some hk⟩
+
+theorem closed_mixin {tbl : Table} {fr : Frame} (h : ClosedBodies tbl fr = true) {n : String}
+    {d : MixinDef} (hm : (n, d) ∈ tbl.mixins) :
+    defaultsLit d = true ∧ closedItems tbl fr (ownNames d) d.body = true := by
+  simp only [ClosedBodies, Bool.and_eq_true, List.all_eq_true] at h
+  exact h.1 _ hm
+
+theorem closed_block {tbl : Table} {fr : Frame} (h : ClosedBodies tbl fr = true) {n : String}
+    {b : List Item} (hm : (n, b) ∈ tbl.blocks) : closedItems tbl fr [] b = true := by
+  simp only [ClosedBodies, Bool.and_eq_true, List.all_eq_true] at h
+  exact h.2 _ hm
+
+/-! ### the frame of an expansion -/
+
+theorem intersperseSp_lit : ∀ vs : List Value, (∀ v ∈ vs, hasRef v = false) →
+    hasRef (intersperseSp vs) = false
+  | [], _ => rfl
+  | [v], h => by simpa [intersperseSp] using h v (by simp)
+  | v :: w :: r, h => by
+    simp only [intersperseSp, hasRef_append, h v (by simp),
+      intersperseSp_lit (w :: r) (fun u hu => h u (List.mem_cons_of_mem _ hu))]
+    rfl
+
+theorem tryMixin_names {Y : Scope} {d : MixinDef} {args : List Value} {frd : Frame}
+    (h : tryMixin Y d args = some frd) : frd.map Prod.fst = ownNames d := by
+  obtain ⟨f0, hb, rfl⟩ := tryMixin_some h
+  simp [ownNames, bindParams_names _ _ _ hb]
+
+theorem tryMixin_lit {Y : Scope} {d : MixinDef} {args : List Value} {frd : Frame}
+    (h : tryMixin Y d args = some frd) (ha : ∀ v ∈ args, hasRef v = false)
+    (hd : defaultsLit d = true) : LitFrame frd = true := by
+  obtain ⟨f0, hb, rfl⟩ := tryMixin_some h
+  have h0 : ∀ nv ∈ f0, hasRef nv.2 = false := by
+    intro nv hnv
+    rcases bindParams_values _ _ _ hb nv hnv with h1 | ⟨p, hp, h2⟩
+    · exact ha _ h1
+    · simp only [defaultsLit, List.all_eq_true] at hd
+      have := hd p hp
+      rw [h2] at this
+      simpa using this
+  simp only [LitFrame, List.all_append, Bool.and_eq_true, List.all_eq_true, List.all_cons,
+    List.all_nil, Bool.and_true, Bool.not_eq_true']
+  refine ⟨fun nv hnv => h0 nv hnv, ?_⟩
+  apply intersperseSp_lit
+  split
+  · intro v hv
+    obtain ⟨nv, hnv, rfl⟩ := List.mem_map.mp hv
+    exact h0 nv hnv
+  · exact ha
+
+theorem get_of_mem_names {f : Frame} {n : String} (h : n ∈ f.map Prod.fst) :
+    ∃ v, Frame.get f n = some v := by
+  cases hg : Frame.get f n with
+  | some v => exact ⟨v, rfl⟩
+  | none => exact absurd h ((Frame.get_none_iff f n).mp hg)
+
+
+/-! ### closed items do not see below the frames that bind their names -/
+
+theorem lookup_cons_congr (f : Frame) {Y1 Y2 : Scope} {n : String}
+    (h : lookup Y1 n = lookup Y2 n) : lookup (f :: Y1) n = lookup (f :: Y2) n := by
+  rw [lookup_cons, lookup_cons, h]
+
+theorem lookup_cons_bound {f : Frame} (Y1 Y2 : Scope) {n : String}
+    (h : n ∈ f.map Prod.fst) : lookup (f :: Y1) n = lookup (f :: Y2) n := by
+  obtain ⟨v, hv⟩ := get_of_mem_names h
+  rw [lookup_cons, lookup_cons, hv]
+
+theorem evalItems_closed {tbl : Table} {fr : Frame} (hcb : ClosedBodies tbl fr = true) :
+    ∀ (gas depth : Nat) (inExp : Bool) (Y1 Y2 : Scope) (me : List Sel) (items : List Item)
+      (N : List String),
+      LitScope Y1 = true → LitScope Y2 = true →
+      (∀ n ∈ N, lookup Y1 n = lookup Y2 n) →
+      (∀ p, Frame.get fr p = none → lookup Y1 p = lookup Y2 p) →
+      closedItems tbl fr N items = true →
+      evalItems tbl gas depth inExp Y1 me items = evalItems tbl gas depth inExp Y2 me items := by
+  intro gas
+  induction gas with
+  | zero =>
+    intro depth inExp Y1 Y2 me items N _ _ _ _ _
+    cases items with
+    | nil => rw [evalItems.eq_1, evalItems.eq_1]
+    | cons it rest => rw [evalItems.eq_2, evalItems.eq_2]
+  | succ gas ih =>
+    intro depth inExp Y1 Y2 me items
+    induction items with
+    | nil => intros; rw [evalItems.eq_1, evalItems.eq_1]
+    | cons it rest ihr =>
+      intro N h1 h2 hN hF hc
+      simp only [closedItems, Bool.and_eq_true] at hc
+      have hrest := ihr N h1 h2 hN hF hc.2
+      cases it with
+      | decl p v =>
+        have hv : refsIn N v = true := by simpa [closedItem] using hc.1
+        rw [evalItems.eq_3, evalItems.eq_3, hrest, expand_lit h1, expand_lit h2,
+          substOnce_agree hN v hv]
+      | rule sel body =>
+        have hb : closedItems tbl fr N body = true := by simpa [closedItem] using hc.1
+        rw [evalItems.eq_4, evalItems.eq_4, hrest,
+          ih 0 false ([] :: Y1) ([] :: Y2) _ body N (by simpa [LitScope_cons, LitFrame] using h1)
+            (by simpa [LitScope_cons, LitFrame] using h2)
+            (fun n hn => lookup_cons_congr [] (hN n hn))
+            (fun p hp => lookup_cons_congr [] (hF p hp)) hb]
+      | call name args =>
+        have hc1 := hc.1
+        simp only [closedItem, Bool.and_eq_true, List.all_eq_true] at hc1
+        obtain ⟨hargs, hguards⟩ := hc1
+        have hm : args.mapM (evalArg Y1) = args.mapM (evalArg Y2) :=
+          mapM_congr' args (fun a ha => evalArg_congr h1 h2 hN a (hargs a ha))
+        rw [call_unfold, call_unfold, hrest, hm]
+        split
+        · rfl
+        · cases hm2 : args.mapM (evalArg Y2) with
+          | error e => rfl
+          | ok args' =>
+            have hlit : ∀ v ∈ args', hasRef v = false :=
+              mapM_ok_all args args' hm2
+                (fun a ha v hv => evalArg_lit h2 a v (closedArg_simple (hargs a ha)) hv)
+            have key : expandCall tbl gas (callDepth inExp depth) Y1 me name args' =
+                expandCall tbl gas (callDepth inExp depth) Y2 me name args' := by
+              unfold expandCall
+              have hfa : firstApplicable Y1 args' (tbl.candidates name) =
+                  firstApplicable Y2 args' (tbl.candidates name) := by
+                apply firstApplicable_congr
+                intro d hd
+                apply tryMixin_congr
+                intro p hp
+                have := hguards d hd p hp
+                rcases Bool.or_eq_true _ _ |>.mp this with hpn | hpn
+                · left
+                  rcases Bool.or_eq_true _ _ |>.mp hpn with hpn | hpn
+                  · exact hN p (by simpa using hpn)
+                  · exact hF p (by simpa using hpn)
+                · right
+                  cases hst : staticArgs args with
+                  | none => simp [hst] at hpn
+                  | some vs =>
+                    simp only [hst] at hpn
+                    have := staticArgs_mapM Y2 _ _ hst
+                    rw [hm2] at this
+                    cases this
+                    exact hpn
+              rw [hfa]
+              cases hfa2 : firstApplicable Y2 args' (tbl.candidates name) with
+              | some mf =>
+                obtain ⟨m, frd⟩ := mf
+                simp only
+                obtain ⟨hmem, htry⟩ := firstApplicable_some _ hfa2
+                obtain ⟨hdl, hcl⟩ := closed_mixin hcb (mem_candidates hmem)
+                have hfl := tryMixin_lit htry hlit hdl
+                have hnames := tryMixin_names htry
+                exact ih _ true (frd :: Y1) (frd :: Y2) me m.body (ownNames m)
+                  (by rw [LitScope_cons, hfl, h1]; rfl) (by rw [LitScope_cons, hfl, h2]; rfl)
+                  (fun n hn => lookup_cons_bound Y1 Y2 (by rw [hnames]; exact hn))
+                  (fun p hp => lookup_cons_congr frd (hF p hp)) hcl
+              | none =>
+                simp only
+                split
+                · cases hbl : tbl.block name with
+                  | none => rfl
+                  | some body =>
+                    simp only
+                    obtain ⟨k, hk⟩ := block_mem hbl
+                    exact ih _ true Y1 Y2 me body [] h1 h2 (fun n hn => by simp at hn) hF
+                      (closed_block hcb hk)
+                · rfl
+            simp only [bind, Except.bind, key]
+
+
+/-! ### inlining -/
+
+theorem evalItems_inline {tbl : Table} {fr : Frame} (hcb : ClosedBodies tbl fr = true)
+    (hf : LitFrame fr = true) :
+    ∀ (gas depth : Nat) (inExp : Bool) (X1 X2 : Scope) (me : List Sel) (body : List Item),
+      Splits X1 fr X2 → LitScope X1 = true → LitScope X2 = true →
+      inlineItemsOK tbl fr body = true →
+      evalItems tbl gas depth inExp X1 me body =
+        evalItems tbl gas depth inExp X2 me (substItems fr body) := by
+  intro gas
+  induction gas with
+  | zero =>
+    intro depth inExp X1 X2 me body _ _ _ _
+    cases body with
+    | nil => rw [substItems, evalItems.eq_1, evalItems.eq_1]
+    | cons it rest => rw [substItems, evalItems.eq_2, evalItems.eq_2]
+  | succ gas ih =>
+    intro depth inExp X1 X2 me body
+    induction body with
+    | nil => intros; rw [substItems, evalItems.eq_1, evalItems.eq_1]
+    | cons it rest ihr =>
+      intro hs h1 h2 hc
+      simp only [inlineItemsOK, Bool.and_eq_true] at hc
+      have hrest := ihr hs h1 h2 hc.2
+      rw [substItems]
+      cases it with
+      | decl p v =>
+        rw [substItem, evalItems.eq_3, evalItems.eq_3, hrest, expand_subst hs hf h1 h2]
+      | rule sel b =>
+        have hb : inlineItemsOK tbl fr b = true := by simpa [inlineItemOK] using hc.1
+        rw [substItem, evalItems.eq_4, evalItems.eq_4, hrest,
+          ih 0 false ([] :: X1) ([] :: X2) _ b hs.push (by simpa [LitScope_cons, LitFrame] using h1)
+            (by simpa [LitScope_cons, LitFrame] using h2) hb]
+      | call name args =>
+        have hc1 := hc.1
+        simp only [inlineItemOK, Bool.and_eq_true, List.all_eq_true] at hc1
+        obtain ⟨hargs, hguards⟩ := hc1
+        have hm : args.mapM (evalArg X1) = (args.map (substArg fr)).mapM (evalArg X2) := by
+          rw [List.mapM_map]
+          exact mapM_congr' args (fun a ha => evalArg_subst hs hf h1 h2 a (hargs a ha))
+        rw [substItem, call_unfold, call_unfold, hrest, ← hm]
+        split
+        · rfl
+        · cases hm1 : args.mapM (evalArg X1) with
+          | error e => rfl
+          | ok args' =>
+            have hlit : ∀ v ∈ args', hasRef v = false :=
+              mapM_ok_all args args' hm1
+                (fun a ha v hv => evalArg_lit h1 a v (inlineArgOK_simple (hargs a ha)) hv)
+            have hF : ∀ p, Frame.get fr p = none → lookup X1 p = lookup X2 p :=
+              fun p hp => hs.agree hp
+            have key : expandCall tbl gas (callDepth inExp depth) X1 me name args' =
+                expandCall tbl gas (callDepth inExp depth) X2 me name args' := by
+              unfold expandCall
+              have hfa : firstApplicable X1 args' (tbl.candidates name) =
+                  firstApplicable X2 args' (tbl.candidates name) := by
+                apply firstApplicable_congr
+                intro d hd
+                apply tryMixin_congr
+                intro p hp
+                have := hguards d hd p hp
+                rcases Bool.or_eq_true _ _ |>.mp this with hpn | hpn
+                · exact .inl (hF p (by simpa using hpn))
+                · right
+                  cases hst : staticArgs (args.map (substArg fr)) with
+                  | none => simp [hst] at hpn
+                  | some vs =>
+                    simp only [hst] at hpn
+                    have := staticArgs_mapM X2 _ _ hst
+                    rw [← hm, hm1] at this
+                    cases this
+                    exact hpn
+              rw [hfa]
+              cases hfa2 : firstApplicable X2 args' (tbl.candidates name) with
+              | some mf =>
+                obtain ⟨m, frd⟩ := mf
+                simp only
+                obtain ⟨hmem, htry⟩ := firstApplicable_some _ hfa2
+                obtain ⟨hdl, hcl⟩ := closed_mixin hcb (mem_candidates hmem)
+                have hfl := tryMixin_lit htry hlit hdl
+                have hnames := tryMixin_names htry
+                exact evalItems_closed hcb gas _ true (frd :: X1) (frd :: X2) me m.body (ownNames m)
+                  (by rw [LitScope_cons, hfl, h1]; rfl) (by rw [LitScope_cons, hfl, h2]; rfl)
+                  (fun n hn => lookup_cons_bound X1 X2 (by rw [hnames]; exact hn))
+                  (fun p hp => lookup_cons_congr frd (hF p hp)) hcl
+              | none =>
+                simp only
+                split
+                · cases hbl : tbl.block name with
+                  | none => rfl
+                  | some body =>
+                    simp only
+                    obtain ⟨k, hk⟩ := block_mem hbl
+                    exact evalItems_closed hcb gas _ true X1 X2 me body [] h1 h2
+                      (fun n hn => by simp at hn) hF (closed_block hcb hk)
+                · rfl
+            simp only [bind, Except.bind, key]
+
+
+/-! ### a structurally recursive evaluator, for concrete evaluations in the kernel
+
+`evalItems` is defined by well-founded recursion and does not reduce under `decide +kernel`.
+`evalF n` follows the same equations with one more fuel `n` for the structure of the recursion and
+answers `none` when `n` runs out; whenever it answers `some r`, `r` is the value of `evalItems`. -/
+
+def evalF (tbl : Table) : Nat → Nat → Nat → Bool → Scope → List Sel → List Item →
+    Option (Except Err (List (String × String) × List OutRule))
+  | 0, _, _, _, _, _, _ => none
+  | _ + 1, _, _, _, _, _, [] => some (.ok ([], []))
+  | _ + 1, 0, _, _, _, _, _ :: _ => some (.error .crash)
+  | n + 1, gas + 1, depth, inExp, sc, me, .decl p v :: rest =>
+      (evalF tbl n (gas + 1) depth inExp sc me rest).map fun r => do
+        let v' ← liftV (expand sc 64 v)
+        let (ds, out) ← r
+        pure ((p, valText v') :: ds, out)
+  | n + 1, gas + 1, depth, inExp, sc, me, .rule sel body :: rest =>
+      match evalF tbl n gas 0 false ([] :: sc) (identParse (some me) sel) body,
+            evalF tbl n (gas + 1) depth inExp sc me rest with
+      | some r1, some r => some (do
+          let (ds1, out1) ← r1
+          let own : List OutRule := if ds1.isEmpty then [] else [⟨identParse (some me) sel, ds1⟩]
+          let (ds, out) ← r
+          pure (ds, own ++ out1 ++ out))
+      | _, _ => none
+  | n + 1, gas + 1, depth, inExp, sc, me, .call name args :: rest =>
+      if callDepth inExp depth > 64 then some (.error (.nameError name)) else
+      match args.mapM (evalArg sc) with
+      | .error e => some (.error e)
+      | .ok args' =>
+        let r1? := match firstApplicable sc args' (tbl.candidates name) with
+          | some (m, fr) => evalF tbl n gas (callDepth inExp depth) true (fr :: sc) me m.body
+          | none =>
+              if (tbl.candidates name).isEmpty then
+                match tbl.block name with
+                | some body => evalF tbl n gas (callDepth inExp depth) true sc me body
+                | none => some (.ok ([], []))
+              else some (.ok ([], []))
+        match r1?, evalF tbl n (gas + 1) depth inExp sc me rest with
+        | some r1, some r => some (do
+            let r1 ← r1
+            let r ← r
+            pure (r1.1 ++ r.1, r1.2 ++ r.2))
+        | _, _ => none
+
+theorem evalF_sound (tbl : Table) : ∀ (n gas depth : Nat) (inExp : Bool) (sc : Scope) (me : List Sel)
+    (items : List Item) (r : Except Err (List (String × String) × List OutRule)),
+    evalF tbl n gas depth inExp sc me items = some r →
+      evalItems tbl gas depth inExp sc me items = r := by
+  intro n
+  induction n with
+  | zero => intro gas depth inExp sc me items r h; simp [evalF] at h
+  | succ n ih =>
+    intro gas depth inExp sc me items r h
+    cases items with
+    | nil => simp only [evalF] at h; cases h; rw [evalItems.eq_1]
+    | cons it rest =>
+      cases gas with
+      | zero => simp only [evalF] at h; cases h; rw [evalItems.eq_2]
+      | succ gas =>
+        cases it with
+        | decl p v =>
+          simp only [evalF, Option.map_eq_some_iff] at h
+          obtain ⟨r0, h0, rfl⟩ := h
+          rw [evalItems.eq_3, ih _ _ _ _ _ _ _ h0]
+        | rule sel body =>
+          simp only [evalF] at h
+          cases h1 : evalF tbl n gas 0 false ([] :: sc) (identParse (some me) sel) body with
+          | none => simp [h1] at h
+          | some r1 =>
+            cases h2 : evalF tbl n (gas + 1) depth inExp sc me rest with
+            | none => simp [h1, h2] at h
+            | some r2 =>
+              simp only [h1, h2] at h
+              cases h
+              rw [evalItems.eq_4, ih _ _ _ _ _ _ _ h1, ih _ _ _ _ _ _ _ h2]
+        | call name args =>
+          rw [call_unfold]
+          simp only [evalF] at h
+          by_cases hd : callDepth inExp depth > 64
+          · simp only [hd, if_true] at h; cases h; simp only [hd, if_true]
+          · simp only [hd, if_false] at h
+            simp only [hd, if_false]
+            cases ha : args.mapM (evalArg sc) with
+            | error e => simp only [ha] at h; cases h; rfl
+            | ok args' =>
+              simp only [ha] at h
+              have key : ∀ r1, (match firstApplicable sc args' (tbl.candidates name) with
+                  | some (m, fr) => evalF tbl n gas (callDepth inExp depth) true (fr :: sc) me m.body
+                  | none =>
+                      if (tbl.candidates name).isEmpty then
+                        match tbl.block name with
+                        | some body => evalF tbl n gas (callDepth inExp depth) true sc me body
+                        | none => some (.ok ([], []))
+                      else some (.ok ([], []))) = some r1 →
+                  expandCall tbl gas (callDepth inExp depth) sc me name args' = r1 := by
+                intro r1 hr1
+                unfold expandCall
+                cases hfa : firstApplicable sc args' (tbl.candidates name) with
+                | some mf =>
+                  obtain ⟨m, fr⟩ := mf
+                  simp only [hfa] at hr1
+                  exact ih _ _ _ _ _ _ _ hr1
+                | none =>
+                  simp only [hfa] at hr1
+                  simp only
+                  split
+                  · rename_i he
+                    simp only [he, if_true] at hr1
+                    cases hb : tbl.block name with
+                    | none => simp only [hb] at hr1; cases hr1; rfl
+                    | some body => simp only [hb] at hr1; exact ih _ _ _ _ _ _ _ hr1
+                  · rename_i he
+                    simp only [he] at hr1
+                    cases hr1; rfl
+              split at h
+              · rename_i r1 r2 hr1 hr2
+                cases h
+                rw [ih _ _ _ _ _ _ _ hr2]
+                simp only [bind, Except.bind, key r1 hr1]
+              · cases h
+
+def compileRulesF (tbl : Table) (n gas : Nat) :
+    List (List Tok × List Item) → Option (Except Err (List OutRule))
+  | [] => some (.ok [])
+  | (sel, body) :: r =>
+      match evalF tbl n gas 0 false [[], []] (identParse none sel) body, compileRulesF tbl n gas r with
+      | some a, some b => some (do
+          let a ← (do
+            let (ds, out) ← a
+            let own : List OutRule := if ds.isEmpty then [] else [⟨identParse none sel, ds⟩]
+            pure (own ++ out))
+          let rest ← b
+          pure (a ++ rest))
+      | _, _ => none
+
+theorem compileRulesF_sound (tbl : Table) (n gas : Nat) :
+    ∀ (rs : List (List Tok × List Item)) (r : Except Err (List OutRule)),
+      compileRulesF tbl n gas rs = some r → compileRules tbl gas rs = r
+  | [], r, h => by simp only [compileRulesF] at h; cases h; rfl
+  | (sel, body) :: rs, r, h => by
+    simp only [compileRulesF] at h
+    split at h
+    · rename_i a b ha hb
+      cases h
+      simp only [compileRules, compileRule, evalF_sound tbl _ _ _ _ _ _ _ _ ha,
+        compileRulesF_sound tbl n gas rs b hb]
+    · cases h
+
+/-- concrete evaluation of `compile` through the structural evaluator -/
+theorem compile_of_F (n gas : Nat) (sheet : List Top) (r : Except Err (List OutRule))
+    (h : compileRulesF (buildTable sheet) n gas (rulesOf sheet) = some r) : compile gas sheet = r := by
+  rw [compile_eq_go, go_eq_compileRules]
+  exact compileRulesF_sound _ n gas _ r h
+
+
+/-! ### decidable equality of items (the model derives none), for the examples -/
+
+mutual
+def decEqItem : (a b : Item) → Decidable (a = b)
+  | .decl p v, .decl q w =>
+      if h : p = q ∧ v = w then isTrue (by rw [h.1, h.2])
+      else isFalse (by intro e; cases e; exact h ⟨rfl, rfl⟩)
+  | .rule s b, .rule t c =>
+      match decEq s t, decEqItems b c with
+      | isTrue h1, isTrue h2 => isTrue (by rw [h1, h2])
+      | isFalse h1, _ => isFalse (by intro e; cases e; exact h1 rfl)
+      | _, isFalse h2 => isFalse (by intro e; cases e; exact h2 rfl)
+  | .call n as, .call m bs =>
+      if h : n = m ∧ as = bs then isTrue (by rw [h.1, h.2])
+      else isFalse (by intro e; cases e; exact h ⟨rfl, rfl⟩)
+  | .decl _ _, .rule _ _ => isFalse (by intro e; cases e)
+  | .decl _ _, .call _ _ => isFalse (by intro e; cases e)
+  | .rule _ _, .decl _ _ => isFalse (by intro e; cases e)
+  | .rule _ _, .call _ _ => isFalse (by intro e; cases e)
+  | .call _ _, .decl _ _ => isFalse (by intro e; cases e)
+  | .call _ _, .rule _ _ => isFalse (by intro e; cases e)
+def decEqItems : (a b : List Item) → Decidable (a = b)
+  | [], [] => isTrue rfl
+  | [], _ :: _ => isFalse (by intro e; cases e)
+  | _ :: _, [] => isFalse (by intro e; cases e)
+  | a :: as, b :: bs =>
+      match decEqItem a b, decEqItems as bs with
+      | isTrue h1, isTrue h2 => isTrue (by rw [h1, h2])
+      | isFalse h1, _ => isFalse (by intro e; cases e; exact h1 rfl)
+      | _, isFalse h2 => isFalse (by intro e; cases e; exact h2 rfl)
+end
+
+instance : DecidableEq Item := decEqItem
+deriving instance DecidableEq for GCond
+deriving instance DecidableEq for MixinDef
+
 end Lessm.Mixin
